@@ -21,7 +21,7 @@ def codecFacts : CodecFacts :=
     byteValueBase := 0,
     headerValueBase := 0,
     embeddedErrorReturned := true,
-    macReaderCopies := false,
+    macReaderCopies := true,
     ipReaderCopies := true,
     boolTrue := 1,
     boolFalse := 0 }
